@@ -30,6 +30,9 @@ CLAIMS = {
  "C11": ("path analysis of the poll loop (fetch-or-skip, deciding branch of every skip path) with backward data/control-dependence slicing through the snapshot's struct field to the handle map; edge-dominance of apply by poll's nil error; error-flow of every fetch error into the returned join; value identity of name/version/value pairings; single-flight key constants; effect set of poll",
          "Structural necessary conditions, decided on all paths: a poll fetches every name the store keeps (a skip must depend on the handle map, because names with handles are never forgotten); nothing is applied after a failed poll and no fetch error is dropped; the name fetched, the version sent, the value recorded and the entry installed are the same snapshot entry; installs happen in one critical section followed by a cache flush; poll rounds are single-flighted under a key disjoint from lookups and Refresh is the only route to them; poll itself writes nothing. Does not decide freshness against the service's history, cadence +/-10%, or convergence.",
          "singleflight runs one function per key at a time; errors.Join nil iff all nil", "4/C11"),
+ "C16": ("edge-dominance of every lookup call by the policy flag; who-may-call on service requests; containment of the fetch in the single-flight literal with key/name identity; typestate of the install (fetch ok => install => flush => handle, failure writes nothing); phi-source analysis of the fetch context with constant timeout; dependence slicing of every retry edge (winner witness or bounded counter); edge-cut reachability for 'only context errors are retried'",
+         "Structural necessary conditions, decided on all paths: with lookups disabled no lookup or request is reachable and unknown names are reported (or panic in Secret); a lookup's request runs only inside the per-name single-flight; a fetched secret is installed only on success, then flushed, and every waiter gets a handle for it; a failed lookup installs nothing and is not retried unless it is a context error while the caller's own context is alive; a caller without deadline gets a <= 5 minute derived timeout, and the retry edge can tell the caller whose own timeout fired from a waiter (so the 5-minute limit holds). Does not decide behaviour over virtual time.",
+         "singleflight.Do runs fn synchronously in the winner and hands every caller the same result", "4/C16"),
  "C03": ("typestate on SSA CFG paths (mutation => save => tested error before any return), value-flow of the bytes handed to the file writer, edge-dominance on the open path, JSON wire-signature computed from go/types against the frozen v1 signature, reader/writer sibling agreement",
          "Structural necessary conditions, decided on all paths: no mutator of the persistent state can return without having called the file-writing save and tested its error; what is saved is the live map, wrapped as documented; opening writes only when the file does not exist; the v1 wire layout (keys, encodings, AEAD contexts, key template, schema constant) is unchanged and reader and writer agree. Does not decide state equality after arbitrary histories nor decoding of real old files.",
          "encoding/json encodes according to the computed shape; tink keyset reader/writer are inverse; the v1 layout is the one documented on db.kv", "4/C03"),
